@@ -323,25 +323,74 @@ func c17Acs(c *Ctx, p *Prog) {
 		c.Undecided("C17-R3", "buildAcsMap", "-", "not found")
 		return
 	}
-	okBr := false
+	// value = (enter + glyph) + exit, where enter/exit are the EnterAcs/ExitAcs capabilities either
+	// taken as they are (then no entry's capability may carry $<…> padding: the glyph string is
+	// written as cell content, not through TPuts) or passed through a padding stripper built on TPuts
+	okBr, raw := false, false
+	fromCap := func(v ssa.Value, capName string) (bool, bool) { // (derives from the capability, stripped)
+		v = derefCell(v)
+		if strings.HasSuffix(valName(v), "."+capName) {
+			return true, false
+		}
+		if call, ok := v.(*ssa.Call); ok && len(call.Call.Args) >= 1 {
+			for _, a := range call.Call.Args {
+				if strings.HasSuffix(valName(a), "."+capName) {
+					// the callee must strip with TPuts
+					var callee *ssa.Function
+					if f := staticCallee(&call.Call); f != nil {
+						callee = f
+					} else if mc, ok := call.Call.Value.(*ssa.MakeClosure); ok {
+						callee, _ = mc.Fn.(*ssa.Function)
+					} else if f, ok := call.Call.Value.(*ssa.Function); ok {
+						callee = f
+					}
+					strips := false
+					if callee != nil {
+						for range callsIn(callee, func(n string, _ *ssa.CallCommon) bool { return strings.HasSuffix(n, "Terminfo).TPuts") }) {
+							strips = true
+						}
+					}
+					return true, strips
+				}
+			}
+		}
+		return false, false
+	}
 	eachInstr(fn, func(in ssa.Instruction) {
 		mu, ok := in.(*ssa.MapUpdate)
 		if !ok {
 			return
 		}
-		// value = (EnterAcs + dstv) + ExitAcs
 		if outer, ok := mu.Value.(*ssa.BinOp); ok && outer.Op == token.ADD {
 			if inner, ok := outer.X.(*ssa.BinOp); ok && inner.Op == token.ADD {
-				if strings.HasSuffix(valName(inner.X), ".EnterAcs") && strings.HasSuffix(valName(outer.Y), ".ExitAcs") {
+				e1, s1 := fromCap(inner.X, "EnterAcs")
+				e2, s2 := fromCap(outer.Y, "ExitAcs")
+				if e1 && e2 {
 					okBr = true
+					raw = !s1 || !s2
 				}
 			}
 		}
 	})
 	c.Check(okBr, "C17-R3", "buildAcsMap:brackets", p.pos(fn.Pos()), "each glyph is EnterAcs + byte + ExitAcs")
-	// pairs: index 0 and 1, reslice by 2
+	if okBr {
+		padded := []string{}
+		if raw {
+			if db := buildDB(c, p); db != nil {
+				for _, e := range db.entries {
+					if strings.Contains(e.Str["EnterAcs"], "$<") || strings.Contains(e.Str["ExitAcs"], "$<") {
+						padded = append(padded, e.Name)
+					}
+				}
+			}
+		}
+		c.Check(len(padded) == 0, "C17-R3", "buildAcsMap:no-padding-in-glyphs", p.pos(fn.Pos()), fmt.Sprintf("glyph strings are written as cell content (no TPuts): padding of smacs/rmacs is stripped when the map is built (stripped: %v); entries whose padding would be drawn as text: %v", !raw, padded))
+	}
+	// pairs: byte 0 names the glyph, byte 1 IS the glyph (taken as a one-byte substring, not converted
+	// from a byte value, which would make a code point of it), advance by 2
 	okPairs := false
 	idx := map[int64]bool{}
+	codePoint := ""
 	eachInstr(fn, func(in ssa.Instruction) {
 		switch x := in.(type) {
 		case *ssa.Index:
@@ -356,9 +405,20 @@ func c17Acs(c *Ctx, p *Prog) {
 			if k, ok := constInt(x.Low); ok && k == 2 && x.High == nil {
 				okPairs = true
 			}
+			if lo, ok := constInt(x.Low); ok && lo == 1 {
+				if hi, ok := constInt(x.High); ok && hi == 2 {
+					idx[1] = true
+				}
+			}
+		case *ssa.Convert:
+			if b, ok := x.X.Type().Underlying().(*types.Basic); ok && (b.Kind() == types.Byte || b.Kind() == types.Uint8) {
+				if bs, ok := x.Type().Underlying().(*types.Basic); ok && bs.Kind() == types.String {
+					codePoint = "string(byte) at " + p.pos(x.Pos()) + " turns a byte >= 0x80 into the UTF-8 encoding of that code point"
+				}
+			}
 		}
 	})
-	c.Check(okPairs && idx[0] && idx[1], "C17-R3", "buildAcsMap:pairs", p.pos(fn.Pos()), "reads bytes 0 and 1 and advances by 2")
+	c.Check(okPairs && idx[0] && idx[1] && codePoint == "", "C17-R3", "buildAcsMap:pairs", p.pos(fn.Pos()), "reads bytes 0 and 1 and advances by 2; the glyph byte is copied as a byte "+codePoint)
 	// the loop admits a remaining length of exactly 2 (the last pair)
 	at := atomsOf(fn)
 	last := at["len(acsstr) > 1"] || at["len(acsstr) >= 2"] || at["len(acsstr) <= 1"] || at["len(acsstr) < 2"]
